@@ -296,6 +296,8 @@ var vhC05ArgTpl = []string{
 	// both operands of a comparison with the same (possibly uncomparable) shape; drawn numbers with arbitrary bounds
 	"{{ v is same_as(v) }}", "{{ v is same_as([w, 2]) }}", "{{ [v] is same_as([v]) }}", "{{ {'a': v} is same_as({'a': 1}) }}", "{{ v == v }}", "{{ [v] == [w] }}", "{{ v in [v] }}", "{{ [v] in [[v]] }}",
 	"{{ random(v) }}", "{{ random(v, w) }}", "{{ random(w, v) }}", "{{ random() }}", "{{ v is divisible_by(w) }}", "{{ v // w }}", "{{ v ** w }}", "{{ v b-and w }}",
+	// interface-keyed and typed maps indexed by any shape (lists and hashes cannot be keys); integer subjects of number_format with any number of decimals
+	"{{ im[v] }}", "{{ im[[v]] }}", "{{ im[{'k': v}] }}", "{{ tm[v] }}", "{{ v in im }}", "{{ [v] in im }}", "{{ im[v][w] }}", "{{ 5|number_format(v) }}", "{{ 5|number_format(v, w) }}", "{{ v|number_format(w) }}", "{{ -7|number_format(v, '.', w) }}",
 }
 
 func vhC05Arg(nshapes int, small bool) (interface{}, string) {
@@ -338,7 +340,7 @@ func VH_C05_Args() {
 		symCover("rejected-at-parse")
 		return
 	}
-	_, _ = e.Render("t", map[string]interface{}{"v": v, "w": w})
+	_, _ = e.Render("t", map[string]interface{}{"v": v, "w": w, "im": map[interface{}]interface{}{1: "one", "a": "A"}, "tm": map[string]int{"a": 1}})
 	symCover("rendered")
 	out, err := e.Render("inc", map[string]interface{}{"q": "Q"})
 	symAssert(err == nil && out == "iQ", "engine-usable-afterwards")
